@@ -49,8 +49,9 @@ def mutable_ids(x, Event, out=None):
 
 class ReadProbe:
     def __init__(self, functions_table, Event, direct_read, storage_calls=None):
-        """direct_read(bucket) -> (rows, count) for the window of the running query, made quietly (not
-        mirrored into the model); storage_calls() -> the list of storage methods reached so far"""
+        """direct_read(bucket, namespace) -> (rows, count, window label) over the window in force in that namespace
+        (STARTTIME / ENDTIME: the query's own instants unless the program assigned them), made quietly (not mirrored
+        into the model); storage_calls() -> the list of storage methods reached so far"""
         self.Event = Event
         self.direct_read = direct_read
         self.storage_calls = storage_calls
@@ -85,13 +86,13 @@ class ReadProbe:
             reached = list(self.storage_calls()[n0:]) if self.storage_calls else None
             self.on = False
             try:
-                self._record(name, args, r, reached)
+                self._record(name, args, r, reached, namespace)
             finally:
                 self.on = True
             return r
         return g
 
-    def _record(self, name, args, r, reached):
+    def _record(self, name, args, r, reached, namespace):
         rec = {"fn": name, "args": [repr(a) for a in args], "k": len(self.calls), "reached": reached}
         bucket = args[0] if args and isinstance(args[0], str) else None
         rec["bucket"] = bucket
@@ -107,8 +108,9 @@ class ReadProbe:
             rec["handed_out"] = r if rec["shape"] else repr(r)[:200]
         if bucket is not None:
             try:
-                rows, count = self.direct_read(bucket)
+                rows, count, label = self.direct_read(bucket, namespace)
                 rec["direct"] = rows if name == "query_bucket" else count
+                rec["window"] = label
             except Exception as ex:     # the reader succeeded where the direct read raises
                 rec["direct"] = "raised " + type(ex).__name__
         self.calls.append(rec)
@@ -126,7 +128,8 @@ def check_calls(calls, memory):
                     f"{'events' if c['fn'] == 'query_bucket' else '(count)'} that differ from the direct windowed read "
                     f"({len(c['direct']) if isinstance(c['direct'], list) else c['direct']!r}) made at the same moment")
             failing.append(("C12:query_bucket-is-not-the-windowed-read", what,
-                            {"call": c["k"], "function": c["fn"], "bucket": c["bucket"], "handed_out": c["handed_out"], "direct": c.get("direct")}))
+                            {"call": c["k"], "function": c["fn"], "bucket": c["bucket"], "handed_out": c["handed_out"], "direct": c.get("direct"),
+                             "window_in_force": c.get("window")}))
         if c.get("shared_with_earlier_read"):
             dis.append((f"call #{c['k']}, {c['fn']}({c['bucket']!r}), handed out {c['shared_with_earlier_read']} object(s) that call(s) "
                         f"{c['shared_with_call']} of the same query had handed out already (the model's read step returns fresh copies)",
@@ -141,16 +144,18 @@ def check_calls(calls, memory):
 
 
 def check_returned(res, ret_spec, direct_read, calls):
-    """ret_spec: key (None = the whole RETURN value) -> ("events" | "count", bucket): values no statement after the
-    read was given.  Compared with the direct read after the query."""
+    """ret_spec: key (None = the whole RETURN value) -> ("events" | "count", bucket[, window]): values no statement after
+    the read was given; window = the (start, end) the program had assigned when it read (None = the query's own).
+    Compared with the direct read after the query."""
     failing = []
-    for key, (what, bucket) in sorted(ret_spec.items(), key=lambda kv: str(kv[0])):
+    for key, sp in sorted(ret_spec.items(), key=lambda kv: str(kv[0])):
+        what, bucket, window = sp[0], sp[1], (sp[2] if len(sp) > 2 else None)
         try:
             v = res if key is None else res[key]
         except Exception:
             failing.append(("C12:query_bucket-is-not-the-windowed-read", f"RETURN has no entry {key!r}", {"key": key}))
             continue
-        rows, count = direct_read(bucket)
+        rows, count, label = direct_read(bucket, None, window)
         if what == "events":
             ok_shape = isinstance(v, list)
             got = ev_rows(v) if ok_shape else repr(v)[:200]
@@ -158,11 +163,11 @@ def check_returned(res, ret_spec, direct_read, calls):
         else:
             got, want = v, count
         if got != want:
-            at_handout_ok = any(c.get("bucket") == bucket and c.get("handed_out") == want for c in calls)
+            at_handout_ok = any(c.get("bucket") == bucket and c.get("window") == label and c.get("handed_out") == want for c in calls)
             sig = ("C12:query_bucket-value-changed-through-another-read" if at_handout_ok and what == "events"
                    else "C12:query_bucket-is-not-the-windowed-read")
             failing.append((sig, f"the program returned under {key!r} what {'query_bucket' if what == 'events' else 'query_bucket_eventcount'}"
                                  f"({bucket!r}) gave it, untouched by any later statement, and it differs from the direct windowed read "
                                  f"({len(got) if isinstance(got, list) else got!r} vs {len(want) if isinstance(want, list) else want!r})",
-                            {"key": key, "bucket": bucket, "returned": got, "direct": want}))
+                            {"key": key, "bucket": bucket, "returned": got, "direct": want, "window_in_force": label}))
     return failing
